@@ -63,16 +63,23 @@ template <class V> static bool exactEq(const V& a, const V& b) { for (int i = 0;
 // equality as transformations (q and -q allowed): compare rotation matrices and the remaining coefficients
 template <class G> static double sameTransform(const G& a, const G& b) { return (double)(toL(a.transform()) - toL(b.transform())).cwiseAbs().maxCoeff(); }
 
-template <class G> static void castChecks(const std::string& who, const G& X) {
+// rot = list of (offset, length) of the unit-norm rotation data inside the coefficient vector
+template <class G> static void castChecks(const std::string& who, const G& X, std::initializer_list<std::pair<int, int>> rot) {
   auto f = X.template cast<float>(); auto d = X.template cast<double>();
-  auto nd = [](const auto& Y, int off, int n) { LD s = 0; for (int i = 0; i < n; ++i) s += (LD)Y.coeffs()(off + i) * (LD)Y.coeffs()(off + i); return std::fabs((double)(std::sqrt(s) - 1)); };
-  (void)nd;
   double scale = 1; for (int i = 0; i < X.coeffs().size(); ++i) scale = std::max(scale, std::fabs((double)X.coeffs()(i)));
   double ef = (double)(toL(f.transform()) - toL(X.transform())).cwiseAbs().maxCoeff() / scale, ed = (double)(toL(d.transform()) - toL(X.transform())).cwiseAbs().maxCoeff() / scale;
   cell("cast/" + who, std::max(ef, ed));
   if (!(ef <= 8 * 1.2e-7)) viol("cast<float>-differs/" + who, ef, J().vec("X", X.coeffs()));
   if (!(ed <= 8 * U)) viol("cast<double>-differs/" + who, ed, J().vec("X", X.coeffs()));
-  // validity in the target type: re-constructing from the cast coefficients must be accepted (assert build) and the rotation orthonormal to the target's threshold
+  // validity in the target type, by the library's own acceptance threshold of that type (recomputed in long double)
+  for (auto& sl : rot) {
+    LD nf = 0, nd = 0; for (int i = 0; i < sl.second; ++i) { nf += (LD)f.coeffs()(sl.first + i) * (LD)f.coeffs()(sl.first + i); nd += (LD)d.coeffs()(sl.first + i) * (LD)d.coeffs()(sl.first + i); }
+    double df = std::fabs((double)(std::sqrt(nf) - 1)), dd = std::fabs((double)(std::sqrt(nd) - 1));
+    LOG.maxi("cast-normdev<float>/" + who, df); LOG.maxi("cast-normdev<double>/" + who, dd);
+    if (!(df < 100 * 1.1920929e-7)) viol("cast<float>-not-normalized/" + who, df, J().vec("X", X.coeffs()).vec("cast", f.coeffs()));
+    if (!(dd < 100 * 2.220446e-16)) viol("cast<double>-not-normalized/" + who, dd, J().vec("X", X.coeffs()).vec("cast", d.coeffs()));
+  }
+  // re-constructing from the cast coefficients must be accepted (assertion build)
   try { typename decltype(f)::LieGroup f2(f.coeffs()); typename decltype(d)::LieGroup d2(d.coeffs()); (void)f2; (void)d2; }
   catch (const std::exception& e) { viol("cast-result-rejected-by-validation/" + who, 1, J().vec("X", X.coeffs()).s("what", e.what())); }
 }
@@ -90,7 +97,7 @@ static void caseSO2(Prng& r) {
   checkRotation("SO2", X.rotation(), &want, j);
   SO2<S> Y(X.real(), X.imag()); if (!exactEq(Y.coeffs(), X.coeffs())) viol("copying-constructor-not-exact/SO2(real,imag)", 1, j);
   SO2<S> Z(X.angle()); if (!(sameTransform(Z, X) <= 16 * U)) viol("accessors-fed-back/SO2", sameTransform(Z, X), j);
-  castChecks("SO2", X);
+  castChecks("SO2", X, {{0, 2}});
 }
 static void caseSE2(Prng& r) {
   double a = sampleAngle(r); S th = (S)a, x = (S)(r.gauss() * std::pow(10.0, r.below(7) - 1)), y = (S)(r.gauss() * std::pow(10.0, r.below(7) - 1));
@@ -107,7 +114,7 @@ static void caseSE2(Prng& r) {
   double ed = sameTransform(D, X) / std::max(1.0, std::max(std::fabs((double)x), std::fabs((double)y)));
   cell("SE2(isometry)", ed); if (!(ed <= 16 * U)) viol("accessors-fed-back/SE2(isometry)", ed, j);
   MatL T = toL(X.transform()); if (!(T(0, 2) == x && T(1, 2) == y && T(2, 2) == 1 && T(2, 0) == 0 && T(2, 1) == 0 && maxd(T.topLeftCorner(2, 2), toL(X.rotation())) == 0)) viol("transform-inconsistent/SE2", 1, j);
-  castChecks("SE2", X);
+  castChecks("SE2", X, {{2, 2}});
 }
 template <class G> static void quatAccessors(const std::string& who, const G& X, const S q[4], J j) {
   auto qq = X.quat();
@@ -142,7 +149,7 @@ static void caseSO3(Prng& r) {
   checkRotation("SO3(rpy)", E.rotation(), nullptr, J().d("roll", ro).d("pitch", pi).d("yaw", ya));
   // setter
   SO3<S> V2 = SO3<S>::Identity(); V2.quat(Q); if (!exactEq(V2.coeffs(), X.coeffs())) viol("setter-differs/SO3::quat", 1, j);
-  castChecks("SO3", X);
+  castChecks("SO3", X, {{0, 4}});
 }
 template <class V3> static V3 randVec(Prng& r) { V3 v; double m = std::pow(10.0, r.below(8) - 1); for (int i = 0; i < 3; ++i) v(i) = (S)(r.gauss() * m); return v; }
 static void caseSE3family(Prng& r) {
@@ -164,7 +171,7 @@ static void caseSE3family(Prng& r) {
     if (!exactEq(typename SO3<S>::DataType(E.quat().coeffs()), Er.coeffs()) || !exactEq(V3(E.translation()), t)) viol("constructor-inconsistent/SE3(x,y,z,r,p,y)", 1, j);
     SE3<S> Z = SE3<S>::Identity(); Z.translation(t); Z.quat(Q); if (!exactEq(Z.coeffs(), X.coeffs())) viol("setter-differs/SE3", 1, j);
     Z = SE3<S>::Identity(); Z.quat(R); if (!exactEq(typename SO3<S>::DataType(Z.quat().coeffs()), R.coeffs())) viol("setter-differs/SE3::quat(SO3)", 1, j);
-    castChecks("SE3", X);
+    castChecks("SE3", X, {{3, 4}});
   }
   {
     SE_2_3<S> X(t, Q, v), Y(t, R, v); quatAccessors("SE_2_3", X, q, j);
@@ -174,7 +181,7 @@ static void caseSE3family(Prng& r) {
     double sc = std::max({1.0, (double)t.cwiseAbs().maxCoeff(), (double)v.cwiseAbs().maxCoeff()}), e = sameTransform(D, X) / sc; cell("SE_2_3(isometry,v)", e); if (!(e <= 64 * U)) viol("accessors-fed-back/SE_2_3(isometry,v)", e, j);
     MatL T = toL(X.transform()); bool okT = T.rows() == 5 && maxd(T.topLeftCorner(3, 3), toL(X.rotation())) == 0 && T(0, 3) == t(0) && T(2, 3) == t(2) && T(0, 4) == v(0) && T(2, 4) == v(2) && T(3, 3) == 1 && T(4, 4) == 1 && T(3, 4) == 0 && T(4, 3) == 0;
     if (!okT) viol("transform-inconsistent/SE_2_3", 1, j);
-    castChecks("SE_2_3", X);
+    castChecks("SE_2_3", X, {{3, 4}});
   }
   {
     SGal3<S> X(t, Q, v, tm), Y(t, R, v, tm); quatAccessors("SGal3", X, q, j);
@@ -185,7 +192,7 @@ static void caseSE3family(Prng& r) {
     S ro = (S)sampleAngle(r), pi = (S)sampleAngle(r), ya = (S)sampleAngle(r);
     SGal3<S> E(t(0), t(1), t(2), ro, pi, ya, v(0), v(1), v(2), tm); SO3<S> Er(ro, pi, ya);
     if (!(sameTransform(E, SGal3<S>(t, Er, v, tm)) <= 64 * U * std::max(1.0, (double)t.cwiseAbs().maxCoeff()))) viol("constructor-inconsistent/SGal3(x..t)", 1, j);
-    castChecks("SGal3", X);
+    castChecks("SGal3", X, {{3, 4}});
   }
   {
     Rn<S, 3> X(t); if (!exactEq(V3(X.coeffs()), t)) viol("accessor-differs/R3", 1, j);
@@ -194,7 +201,7 @@ static void caseSE3family(Prng& r) {
     B b(a, R, c);
     bool ok = exactEq(typename SE2<S>::DataType(b.template element<0>().coeffs()), a.coeffs()) && exactEq(typename SO3<S>::DataType(b.template element<1>().coeffs()), R.coeffs()) && exactEq(V3(b.template element<2>().coeffs()), t);
     cell("Bundle(elements)", ok ? 0 : 1); if (!ok) viol("accessor-differs/Bundle(elements)", 1, j);
-    castChecks("Bundle<SE2,SO3,R3>", b);
+    castChecks("Bundle<SE2,SO3,R3>", b, {{2, 2}, {4, 4}});
   }
 }
 
